@@ -12,7 +12,7 @@ code -> spec: random graphs with cycles (1-12 cells) x random wildcard paths val
 import random
 
 import glom
-from glom import Path
+from glom import Path, T
 
 import codec
 import tspec
@@ -48,9 +48,9 @@ def spellings(ops, heap):
         if k == 'P':
             return heap.val(o['arg'])
         if k == 'x':
-            return glom.core._T_STAR
+            return T.__star__()
         if k == 'X':
-            return glom.core._T_STARSTAR
+            return T.__starstar__()
         return tspec.build_t([o], heap)
     out.append(('Path', Path(*[part(o) for o in ops])))
     if 'P' not in kinds:
